@@ -219,6 +219,10 @@ def gen_corruptions(ctx, rng, base, res, per_base: int):
             cands.append({"kind": "saio", "rep": rid, "nth": rng.randrange(0, n),
                           "delta": rng.choice([1, -1, 8, 16, -5])})
         box = rng.choice(INIT_BOXES)
+        if r["encrypted"] and r["content_type"] != "video" and box.split("/")[-1] in ("minf", "stbl", "stsd"):
+            # ledger encrypted-track-init-without-sample-entry: the init segment then loads as a *clear*
+            # track and the senc box of the fragments cannot be parsed
+            box = "moov/mvex/trex"
         cands.append({"kind": "initbox", "rep": rid, "nth": 0, "box": box})
     xml = first_manifest(res)
     if xml is not None:
@@ -226,6 +230,9 @@ def gen_corruptions(ctx, rng, base, res, per_base: int):
         for xp, attr, modes in MPD_ATTRS:
             if base.mode not in modes:
                 continue
+            if attr == "mediaPresentationDuration" and all(
+                    p.get("duration") is not None for p in root.findall(M._q("Period"))):
+                continue      # optional when every Period has @duration (ISO/IEC 23009-1 5.3.1.2)
             if "{i}" in xp:
                 els = root.xpath(xp.replace("[{i}]", ""), namespaces={"d": M.DASH_NS})
                 idx = [i for i, el in enumerate(els, start=1) if el.get(attr) is not None]
@@ -512,7 +519,7 @@ def correspond(case, res, chs, batch: Batch):
                             chs["vseg"].count(f"kind:{k}")
                 toks.append("|".join([M.exp_token(spre), M.b(spre["validated"]), M.res_token(spre), oc]))
                 expect.append(M.seg_canon(spost, kinds))
-                model_err["n"] += len(kinds)
+                model_err["n"] += sum(1 for k in kinds if not k.startswith("other:") and not k.endswith("?"))
             if not ok:
                 chs["vrep"].count("skipped:unreadable-segment")
                 continue
@@ -676,7 +683,13 @@ def correspond(case, res, chs, batch: Batch):
         batch.add(chs["vrefresh"], f"vrefresh {cfg}", ",".join(real) or "-", {**info, "refresh": i})
         chs["vrefresh"].count("errors" if real else "clean")
         chs["vrefresh"].nontrivial.add((cfg, case.key()))
-        model_err["n"] += len(real)
+        model_err["n"] += sum(1 for k in real if not k.startswith("other:"))
+    # ---- verdict level: errors / no errors.  The sub-channels compare every modelled error; what is left
+    # is a session whose only errors are of kinds the model does not know (the model says "no errors")
+    if res.errors and model_err["n"] == 0 and not res.crashed:
+        chs["validator_run"].disagreements.append({
+            **info, "what": "the validator reports errors, none of a kind the model knows (model verdict: clean)",
+            "errors": [e["msg"][:160] for e in res.errors[:5]]})
 
 
 def _td_us(td: datetime.timedelta) -> int:
@@ -879,15 +892,29 @@ def replay_finding(ctx, finding):
 
 
 def matches_finding(finding, failure):
-    """an oracle failure is covered by a ledger entry only when it is the entry's own region"""
-    w = finding.get("witness", {})
-    region = w.get("region") or {}
+    """an oracle failure is covered by a ledger entry only when it lies in the entry's own region
+    (the negated hypothesis recorded with the witness) – never by its symptom alone"""
+    region = (finding.get("witness") or {}).get("region") or {}
     case = failure.get("case") or {}
-    if not region:
+    if not region or not case:
         return False
     c = case.get("corruption") or {}
+    q = case.get("query") or {}
     if "attr" in region:
-        return c.get("kind") == "mpdattr" and c.get("attr") == region["attr"] and case.get("mode") == region.get("mode", case.get("mode"))
+        return c.get("kind") == "mpdattr" and c.get("attr") == region["attr"] and \
+            case.get("mode") == region.get("mode", case.get("mode"))
+    if "initbox" in region:
+        return c.get("kind") == "initbox" and c.get("box", "").split("/")[-1] in region["initbox"] and \
+            c.get("rep", "").endswith("_enc") and "_v" not in c.get("rep", "")
+    if c:
+        return False                      # every other entry is about pristine streams
+    if "addressing" in region:
+        return case.get("stream") in region["stream"] and case.get("mode") == region["mode"] and \
+            not q.get("timeline") and case.get("template") != "manifest_a.mpd"
     if "stream" in region:
-        return case.get("stream") in region["stream"] and c == {}
+        return case.get("stream") in region["stream"]
+    if "depth_below" in region:
+        return case.get("mode") == "live" and "depth" in q and int(q["depth"]) < region["depth_below"]
+    if "vod_duration_above" in region:
+        return case.get("mode") == "vod" and case.get("duration", 0) > region["vod_duration_above"]
     return False
